@@ -328,6 +328,8 @@ func selfcertReplay(args []string) {
 		p := testProtocol(1)
 		p.Patches = append(p.Patches, "remove-also-known-as")
 		p.MultihashAlgorithms = nil
+		// (sizes are C07's subject: the limits are out of the way of the largest delta of this family)
+		p.MaxDeltaSize, p.MaxOperationSize = 6000, 20000
 
 		for _, a := range c.Algs {
 			p.MultihashAlgorithms = append(p.MultihashAlgorithms, uint(algCode(a)))
